@@ -48,7 +48,8 @@ CLAIMED = {
              "one more is an index panic; 600 plies fit); and end-to-end against the FIDE specification: every FIDE-legal move written "
              "in UCI notation is accepted and yields the FIDE successor, and `position startpos|fen F moves ...` of a FIDE-legal game "
              "yields the FIDE game state. Tied to the code by NewPosition runs (whole struct + history) vs the model, replay of the same "
-             "UCI moves on the extracted specification, and print/parse round trips of every legal move.",
+             "UCI moves on the extracted specification, print/parse round trips of every legal move, and whole UCI sessions through the real "
+             "handleInput (position, go, bestmove; complete stdout text) vs the sequential engine model Uci/Engine.v.",
         note="moves form a legal game; counters within byte range for the full-move/half-move fields (placement, side, rights, en-passant target unconditional); unicode.IsDigit table arbitrary",
         technique="Coq proof (byte-level print/parse inverse on generated moves, induction over the game) + differential correspondence check against model and extracted specification",
         ref="DESIGN.md section 0.4, C03"),
@@ -115,11 +116,16 @@ CLAIMED = {
              "(under the window condition 'alpha <> -32768 or closed window', shown necessary by a machine-checked witness with a junk "
              "cache entry); the answer of Search() is the null move or a generated move whose successor is legal - unconditionally - and, "
              "for positions satisfying the C10 invariant, a member of the legal move list; s.PV changes only to the line of a completed "
-             "in-window root search; every printed PV comes from such a search; the answer is the head of the last printed PV. The clause "
-             "'null move only when no legal move exists' is proved in part (it needs score-range reasoning; statement kept, see DESIGN) and "
-             "is checked by the oracle. Tied to the code by differential runs of whole searches under a counting context (answer, every "
-             "info line, node and poll counters) incl. warmed tables; oracle: answer and PVs replayed on the engine's generator.",
-        note="PV legality of info lines excludes runs in which an info line has score -32718 (aspiration alpha wraps to -32768); 'engine-legal' = FIDE-legal via C01",
+             "in-window root search; every printed PV comes from such a search; the answer is the head of the last printed PV. 'Null move "
+             "only when no legal move exists' is proved (C04Null): for a legal root (C10 invariant + material accounting) and an evaluation "
+             "cache without mate values (necessary: witness; true of every engine-produced state) the answer is the null move IFF the root has "
+             "no legal move, whatever the table, heuristics and cancellation point. Crash-freedom is proved (C05NoPanic): on a legal root no "
+             "call of the search panics while the 1024-entry repetition stack has room (necessary: witness), and with termination an answer "
+             "is always produced. Tied to the code by differential runs of whole searches under a counting context (answer, every "
+             "info line, node and poll counters) incl. warmed tables, and of whole UCI sessions through the real handleInput (complete stdout "
+             "text vs the sequential engine model Uci/Engine.v); oracle: answer and PVs replayed on the engine's generator.",
+        note="PV legality of info lines excludes runs in which an info line has score -32718 (aspiration alpha wraps to -32768); 'engine-legal' = FIDE-legal via C01; "
+             "null-move clause: recursion depth within the uint8 ply range (fuel <= 255); Go's MoveList holds 255 moves (legal chess: at most 218; the model's lists are unbounded)",
         technique="Coq proof (induction on search fuel with loop invariants, arbitrary shared-table state) + differential correspondence check of whole searches",
         ref="DESIGN.md section 6, C04"),
     "C05": dict(
@@ -128,11 +134,15 @@ CLAIMED = {
              "pre-poll increment); a call during which the oracle fired never returns a value; the repetition stack, PV and output are "
              "balanced on every path; no info line reports a depth above the requested one; with the repaired window test the "
              "iterative-deepening loop runs at most two root searches per depth (the unrepaired loop is refuted on the fool's-mate "
-             "position by kernel evaluation); the fallback depth-1 search runs iff no move is known and cannot be cancelled. Fuel "
-             "sufficiency (termination of one root search) is NOT proved in general - stated as the bounded-check-chain hypothesis. "
+             "position by kernel evaluation); the fallback depth-1 search runs iff no move is known and cannot be cancelled. TERMINATION is "
+             "proved (C05Term): for every state, root and depth < 255 a loop bound of 510 and a recursion bound of 1282 suffice and the result "
+             "is the same for all larger bounds (Search is a total function; fuel monotonicity); quiescence terminates by its ply counter and by "
+             "material; under bounded check chains the recursion depth is depth + budget + 258 independently of the repetition stack. With "
+             "crash-freedom (C05NoPanic) every go on a legal root yields exactly one answer while the repetition stack has room. "
              "Wall-clock promptness is TESTED on the real process (movetime/clock/depth limits, go infinite + stop, terminal positions).",
-        note="requested depth < 255 (uint8 depth wraps at 255, as in the Go loop); wall-clock clause tested not proved; fuel sufficiency hypothesis",
-        technique="Coq proof (cancellation/unwinding invariants, loop bound) + differential correspondence check + process-level watchdog",
+        note="requested depth < 255 (uint8 depth wraps at 255, as in the Go loop); wall-clock clause tested not proved; the unconditional termination bound rests on the "
+             "1024-entry repetition stack (overflow = Go panic, needs a game of > 1000 plies; C03's domain is 600)",
+        technique="Coq proof (cancellation/unwinding invariants, loop bound, ranking-function termination, fuel monotonicity) + differential correspondence check + process-level watchdog",
         ref="DESIGN.md section 6, C05"),
     "C07": dict(
         text="Coq theorems over a byte-level model of parseGo (Go slice semantics, strconv.Atoi, named-return semantics), "
@@ -141,7 +151,8 @@ CLAIMED = {
              "acknowledged, fields untouched; empty or 'infinite' => infinite); unknown prefixes are skipped, lines without a command "
              "word dispatch to nothing; a missing or non-integer value is reported and never panics. Tied to the code by differential "
              "runs of VerifParseGo (fields and printed info strings) and of the real handleInput with a recording game; the oracle is "
-             "an independent reference parser; plus process-level liveness scripts against the real engine binary (tested, not proved).",
+             "an independent reference parser; whole UCI sessions through the real handleInput, game object and search goroutine against the "
+             "sequential engine model Uci/Engine.v (complete stdout text); plus process-level liveness scripts against the real engine binary (tested, not proved).",
         note="token lists after strings.Fields (ASCII whitespace modelled); depth 0..255; strconv.Quote modelled for printable ASCII "
              "tokens (others compared by event kind); positions given to the engine are legal game states; lines <= 64 KiB",
         technique="Coq proof (induction over token lists, atoi/itoa round trip) + differential correspondence check + process liveness probe",
@@ -204,8 +215,10 @@ CLAIMED = {
              "hypothesis every hashed cache needs (hash -> evaluation key injective on the universe of positions evaluated, non-zero "
              "hashes) every cached result equals the uncached one (error classes included) and the cache stays sound; clock twins across "
              "the 100 boundary never leak in either order (no injectivity hypothesis needed); the unrepaired function is refuted with the "
-             "D9 witness in both directions. Tied to Evaluation() by differential runs of evaluation sequences with clock/rights/en-passant "
-             "twins, revisits and same-slot pairs; oracle: cached vs uncached on the implementation.",
+             "D9 witness in both directions. What the key table decides about the hypothesis IS proved and re-checked whenever the generated "
+             "keys change: all 781 Zobrist keys are non-zero and pairwise distinct, so no two positions differing in exactly one component "
+             "share a hash. Tied to Evaluation() by differential runs of evaluation sequences with clock/rights/en-passant/side/one-square "
+             "twins, revisits, same-slot pairs and twins aimed at any zero or repeated key of the build's table; oracle: cached vs uncached on the implementation.",
         note="hash injectivity on the evaluated universe and non-zero hashes are explicit hypotheses (false in general for any 64-bit hash; measured in the runs)",
         technique="Coq proof (cache soundness invariant over histories) + differential correspondence check",
         ref="DESIGN.md section 6, C16"),
